@@ -150,3 +150,16 @@ contract(f"{EP}::TunnelEndpoint.set_tunnel_community", "set_tunnel_community.que
          ensures=["self.send_queue.maxlen == 100", "self.tunnel_community is newtc", "self.hops == h", "len(self.send_queue) <= n_queued"],
          bounded="0 or 2 queued packets",
          note="reconfiguring (attach, detach, change of hop count) never turns the bounded queue into an unbounded one")
+
+# ... and the opt-in is never withdrawn: unloading an anonymised overlay leaves its prefix registered as anonymised on the (shared) tunnel
+# endpoint - a late handler of the unloaded instance, or a replacement instance on the same endpoint, must still not reach the raw socket
+contract("ipv8/community.py::Community.unload", "unload.keeps-the-prefix-anonymised",
+         vars={"P": BYTES_FIXED(22),
+               "ep": OBJ(f"{EP}::TunnelEndpoint", endpoint=EFFECT("raw"), hops=INT, settings=EXPR("{P: True, b'other': True}"),
+                         tunnel_community=OPT(EFFECT("tc")), send_queue=EXPR("deque(maxlen=100)")),
+               "self": OBJ("contracts/C07.py::AnonOverlay", endpoint=EXPR("ep"), anonymize=EXPR("True"), _prefix=EXPR("P"),
+                           bootstrappers=EXPR("[]"), logger=LOGGER())},
+         call="run_coro(self.unload())", raises=[],
+         stubs={"ipv8/overlay.py::Overlay.unload": {"event": "overlay_unload", "returns": EXPR("None"), "note": "own contract in C11"}},
+         ensures=["ep.settings.get(P, False) == True", "ep.settings.get(b'other', False) == True", "len(calls('raw.send')) == 0"],
+         note="unload does not turn an anonymised prefix back into a plain one")
